@@ -117,7 +117,17 @@ pub fn gen_world(rng: &mut Rng, p: &Profile) -> (WorldCfg, u8) {
     // (token i is instantiated as "contract<i>"): textual asset ids then collide across kinds
     if nt > 0 && !denoms.is_empty() && rng.chance(12, 100) {
         let t = rng.below(nt as u64);
-        let alias = format!("contract{}", t);
+        let alias = if rng.chance(70, 100) {
+            format!("contract{}", t)
+        } else {
+            // the stub's canonical (storage) form of that address, as a string
+            use cosmwasm_std::Api;
+            let c = cosmwasm_std::testing::MockApi::default()
+                .addr_canonicalize(&format!("contract{}", t))
+                .map(|c| String::from_utf8_lossy(c.as_slice()).to_string())
+                .unwrap_or_else(|_| format!("contract{}", t));
+            c
+        };
         if !denoms.contains(&alias) {
             let k = rng.pick_idx(denoms.len());
             denoms[k] = alias;
